@@ -40,12 +40,14 @@ def model_check(work, consts, tag):
 
 
 QUICK = dict(Classes="ClassesCore", RowCounts="RowsQuick", NullPats="PatsQuick", ValPats="ValsQuick", Modes="ModesAll",
-             RppWants="RppQuick", Versions="V12", RgOffsets="RgoQuick", StatsModes="StatsQuick")
+             RppWants="RppQuick", Versions="V12", RgOffsets="RgoQuick", StatsModes="StatsQuick", Codecs="CodecNone")
 BIG = dict(Classes="ClassesBig", RowCounts="RowsBig", NullPats="PatsBig", ValPats="ValsBig", Modes="ModesBig",
-           RppWants="RppBig", Versions="V12", RgOffsets="Rgo0", StatsModes="StatsTrue")
+           RppWants="RppBig", Versions="V12", RgOffsets="Rgo0", StatsModes="StatsTrue", Codecs="CodecNone")
+TYPES = dict(Classes="ClassesAll", RowCounts="RowsTypes", NullPats="PatsTypes", ValPats="ValsBig", Modes="ModesBig",
+             RppWants="RppTypes", Versions="V12", RgOffsets="Rgo0", StatsModes="StatsTrue", Codecs="CodecsAll")
 HUGE = dict(BIG, RowCounts="RowsHuge", RppWants="RppHuge")
 THOROUGH = dict(Classes="ClassesAll", RowCounts="RowsThorough", NullPats="PatsAll", ValPats="ValsQuick", Modes="ModesAll",
-                RppWants="RppQuick", Versions="V12", RgOffsets="RgoThorough", StatsModes="StatsAll")
+                RppWants="RppQuick", Versions="V12", RgOffsets="RgoThorough", StatsModes="StatsAll", Codecs="CodecsSome")
 
 
 def case_sig(case):
@@ -84,9 +86,9 @@ def replay_chunk(args):
             raised = None
             try:
                 # the page budget applies to column x; z (8 bytes/row, REQUIRED or OPTIONAL) gets what it gets
-                W.MAX_PAGE_SIZE, W.DATAPAGE_VERSION = max(case["pagebytes"], 9), case["v"]
+                W.MAX_PAGE_SIZE, W.DATAPAGE_VERSION = case["pagebytes"], case["v"]
                 fp.write(path, df, has_nulls=has_nulls, row_group_offsets=(case["rgo"] or None), stats=stats,
-                         write_index=False)
+                         write_index=False, compression=(None if case.get("codec", "none") == "none" else case["codec"]))
             except BaseException as e:  # noqa
                 raised = e
             finally:
